@@ -134,18 +134,18 @@ def _c2s_sig(t, bad, l):
 
 def run(ctx):
     _cross_check_tags()
-    ctx.mc("httpm", "XHeaders", "MC_XHeaders.cfg", required_actions=["Request"])
+    ctx.mc("httpm", "XHeaders", "MC_XHeaders.cfg", timeout=ctx.pick(900, 3000), required_actions=["Request"])
     # every single request of the full table under every connection configuration
-    p1 = ctx.gen_paths("httpm", "Gen_XHeaders", "Gen_XHeaders.cfg", overrides={"ComboSel": 1, "MaxReq": 1, "CfgSel": 1, "L": 1})
+    p1 = ctx.gen_paths("httpm", "Gen_XHeaders", "Gen_XHeaders.cfg", timeout=ctx.pick(900, 3000), overrides={"ComboSel": 1, "MaxReq": 1, "CfgSel": 1, "L": 1})
     ctx.replay(p1, replayer, label="s2c", nontrivial=lambda e, p: True)
     # every sequence of <= 3 (quick) / 4 (thorough) keep-alive requests over the reduced table
     k = ctx.pick(3, 4)
-    p2 = ctx.gen_paths("httpm", "Gen_XHeaders", "Gen_XHeaders.cfg", overrides={"ComboSel": 2, "MaxReq": k, "CfgSel": ctx.pick(2, 1), "L": k})
+    p2 = ctx.gen_paths("httpm", "Gen_XHeaders", "Gen_XHeaders.cfg", timeout=ctx.pick(900, 3000), overrides={"ComboSel": 2, "MaxReq": k, "CfgSel": ctx.pick(2, 1), "L": k})
     ctx.replay(p2, replayer, label="s2c")
     ctx.cov["exhaustive"] = True
     n = ctx.pick(600, 10000)
     traces = framework.pool_map(random_trace, [(i + 1, ctx.seed * 1000003 + i) for i in range(n)])
-    ctx.validate("httpm", "Trace_XHeaders", "Trace_XHeaders.cfg", traces, sig_fn=_c2s_sig)
+    ctx.validate("httpm", "Trace_XHeaders", "Trace_XHeaders.cfg", traces, timeout=ctx.pick(900, 3000), sig_fn=_c2s_sig)
     ctx.cov["trusted_base"].append("ipaddress.ip_address as the numeric-IP tag of header tokens")
     ctx.cov["rule"] = ("paths: every request of the full proxy-header table (22 X-Forwarded-For x 8 X-Real-Ip shapes, 10 x 10 "
                        "X-Scheme / X-Forwarded-Proto shapes) under 8 connection configurations, and every sequence of up to %d "
